@@ -56,7 +56,8 @@ impl Block for SignalSourceComplex {
             *to = from;
         }
         o.produce(n, &[]);
-        Ok(BlockRet::Again)
+        // The output is full now: wait for space rather than polling.
+        Ok(BlockRet::WaitForStream(&self.dst, 1))
     }
 }
 
@@ -105,13 +106,14 @@ impl Block for SignalSourceFloat {
         let n = o.len();
         o.slice()
             .iter_mut()
-            .zip(self)
+            .zip(&mut *self)
             .map(|(to, from)| {
                 *to = from;
             })
             .for_each(drop);
         o.produce(n, &[]);
-        Ok(BlockRet::Again)
+        // The output is full now: wait for space rather than polling.
+        Ok(BlockRet::WaitForStream(&self.dst, 1))
     }
 }
 /* vim: textwidth=80
